@@ -10,7 +10,7 @@ iterator dump (`ssdriver c14`).  Oracle on the implementation's own output: allo
 allocator = strlen + 1, strict JSON parse (Python `json` with NaN/Infinity/duplicate keys/control characters
 rejected, and the Lean recogniser), numeric comparison with what the iterators report.
 """
-import concurrent.futures, json, math, os, re
+import concurrent.futures, json, math, os, re, time
 import vlib
 
 RAW = "tests/data/goforward.raw"
@@ -27,8 +27,8 @@ SPECIAL = {
     "utf8": ["é".encode(), "日本".encode(), "naïve".encode(), "😀".encode(), "ü\"ö\\".encode()],
     "non-utf8": [b"\xff\xfe", b"\x80", b"caf\xe9", b"\xc3", b'\xe9"\\'],
     "json-like": [b'{"a":1}', b"[1,2]", b"a,b", b"}", b"]", b":", b"null"],
-    "long": [bytes((i * 37 + 11) % 255 + 1 for i in range(300)).replace(b" ", b"_").replace(b"\t", b"_")
-             .replace(b"\n", b"_").replace(b"\r", b"_").replace(b"(", b"<").replace(b")", b">")],
+    "long": [b"L" + bytes((i * 37 + 11) % 255 + 1 for i in range(300)).replace(b" ", b"_").replace(b"\t", b"_")
+             .replace(b"\n", b"_").replace(b"\r", b"_").replace(b"(", b"<").replace(b")", b">") + b"X"],
 }
 STARTS = ["0", "0.5", "1.25", "1234.5678", "1000000.001", "-3.25", "0.0001", "31536000", "1e15", "0.0004999", "2.0005"]
 FRATES = [1, 3, 7, 50, 100, 125, 1000, 16000]
@@ -174,6 +174,17 @@ def gen_scenario(rng, tier, stats, kind=None):
         audio = "short"
     stats["audio"][audio] = stats["audio"].get(audio, 0) + 1
     ops += feed_ops(rng, stats, init_frate, tier, audio)
+    if kind == "empty-align" and rng.chance(0.4):
+        # words without phone entries (alignment_add_word only): "w":[] inside every word
+        t0, parts = 0, []
+        for w, _ in BASE[:rng.range(1, 4)]:
+            du = rng.range(1, 60)
+            parts.append(f"{hx(w)}:{t0}:{du}")
+            t0 += du
+        ops.append("barealign " + " ".join(parts))
+        ops += [f"json {rng.choice(STARTS)} 1", f"json {rng.choice(STARTS)} 2"]
+        for l in (1, 2):
+            stats["levels"][l] = stats["levels"].get(l, 0) + 1
     if kind == "empty-align":
         # a current alignment with zero words (what the alignment interface holds for a result without
         # dictionary words), installed through the public structs: levels 1 and 2 must give "w":[]
@@ -451,7 +462,7 @@ def evaluate(sc, rc, out, err):
             findings.append({"what": "allocation-size observer is not exact", "line": lines[:1]})
     words_utf8 = all(is_utf8(bytes.fromhex(w)) for w in sc.get("words", []))
     for l in lines[1:]:
-        if l.startswith(("addword 0", "jsgf -1", "align -1", "fsg -1", "init fail", "bad-op", "no-decoder", "start -1", "end -1")) \
+        if l.startswith(("jsgf -1", "align -1", "fsg -1", "init fail", "bad-op", "no-decoder", "start -1", "end -1")) \
                 and sc["kind"] != "no-grammar":
             findings.append({"what": "harness op failed (generator/harness problem)", "line": l, "machinery": True})
         if not l.startswith("json "):
@@ -482,7 +493,7 @@ def evaluate(sc, rc, out, err):
         py_render(d, table)
         cases.append((d, table))
     if rc != 0:
-        kind = {99: "AddressSanitizer report", 98: "UBSan report", -6: "abort (failed assert)", 134: "abort (failed assert)",
+        kind = {99: "sanitizer report", 98: "sanitizer report", -6: "abort (failed assert)", 134: "abort (failed assert)",
                 -999: "timeout", -11: "segmentation fault"}.get(rc, f"exit code {rc}")
         m = re.search(r"(Assertion `[^']*' failed|SUMMARY: [^\n]*|runtime error: [^\n]*)", err)
         findings.append({"what": f"{kind} inside the library during `{last_op(err)}`" + (f": {m.group(1)}" if m else ""),
@@ -495,7 +506,13 @@ def model_compare(cases):
     if not cases:
         return [], 0
     text = "\n".join(driver_line(d, t) for d, t in cases) + "\n"
-    rc, out, err = vlib.run_driver("c14", text)
+    for attempt in range(6):
+        try:
+            rc, out, err = vlib.run_driver("c14", text)
+            break
+        except OSError as e:       # the driver binary is being relinked by a concurrent `lake build`
+            rc, out, err = -1, "", repr(e)
+            time.sleep(3)
     if rc != 0:
         return [{"what": "model driver failed", "detail": err[-500:]}], 0
     div = []
@@ -528,16 +545,25 @@ def model_compare(cases):
     return div, len(cases)
 
 
-def shrink(binp, sc, still_fails):
-    """drop ops (never the init line) while the scenario still fails the same way"""
+def signature(f):
+    """stable class of a finding, so that shrinking keeps the same failure"""
+    if f.get("crash"):
+        m = re.search(r"(Assertion `[^']*'|(?:heap|stack|global)-[a-z-]+|SEGV|runtime error: [a-z ]+| in [A-Za-z_0-9]+$)", f["what"])
+        fn = re.search(r" in ([A-Za-z_0-9]+)\s*$", f["what"])
+        return "crash:" + (m.group(1) if m else "") + ":" + (fn.group(1) if fn else "")
+    return "prop:" + re.split(r"[:;]", f["what"])[0][:40]
+
+
+def shrink(binp, sc, sig):
+    """drop ops (never the init line) while the scenario still fails the same way and every harness op succeeds"""
     head, body = sc["ops"][:1], sc["ops"][1:]
 
     def fails(sub):
         s2 = dict(sc, ops=head + sub)
         rc, out, err = run_scenario(binp, s2, timeout=120)
         f, cases, _ = evaluate(s2, rc, out, err)
-        return still_fails([x for x in f if not x.get("machinery")])
-    small = vlib.ddmin(body, fails, max_tests=40)
+        return not any(x.get("machinery") for x in f) and any(signature(x) == sig for x in f)
+    small = vlib.ddmin(body, fails, max_tests=25)
     return dict(sc, ops=head + small)
 
 
@@ -553,11 +579,11 @@ def judge(c, binp, sc, label, totals):
     for f in mach:
         c.oblige(f"harness/generator sanity ({label})", False, f)
     if real:
-        crash = any(f.get("crash") for f in real)
-        small = shrink(binp, sc, (lambda fs: any(x.get("crash") for x in fs)) if crash else (lambda fs: bool(fs)))
+        sig = signature(real[0])
+        small = shrink(binp, sc, sig)
         rc2, out2, err2 = run_scenario(binp, small)
         f2, _, _ = evaluate(small, rc2, out2, err2)
-        f2 = [x for x in f2 if not x.get("machinery")] or real
+        f2 = [x for x in f2 if not x.get("machinery") and signature(x) == sig] or real
         c.oblige(f"oracle on the implementation's output ({label})", False, f2[0]["what"])
         c.violation({"kind": "decoder_result_json scenario", "scenario_kind": sc["kind"], "ops": small["ops"],
                      "words": small.get("words", []), "violations": f2[:5], "exit_code": rc2,
@@ -594,7 +620,10 @@ def new_stats():
 
 def check(c):
     setup(c)
-    lean_ok = c.lean_obligations()
+    c.lean_obligations()
+    # the model comparison needs the freshly built driver only (a forbidden construct or a failed audit elsewhere in
+    # the library is reported by its own obligation and must not switch the correspondence off)
+    lean_ok = any(n.startswith("lake build") and ok for n, ok, _ in c.obligations)
     binp = vlib.build_harness("h_c14")
     stats, totals = new_stats(), {}
     ok_all = True
@@ -604,7 +633,7 @@ def check(c):
         sc["ops"] = [o.replace("@REPO@", str(vlib.REPO)) for o in sc["ops"]]
         ncorp += 1
         ok_all &= judge(c, binp, sc, f"corpus {f.name}", totals)
-    n = 36 if c.tier == "quick" else 700
+    n = 36 if c.tier == "quick" else 3000
     # every kind at least once, then random
     kinds = ["jsgf", "align-special", "fsg-special", "noise", "lead-null", "empty-align", "no-grammar", "short"]
     scs = [gen_scenario(c.rng, c.tier, stats, kind=kinds[i] if i < len(kinds) else None) for i in range(n)]
@@ -612,26 +641,47 @@ def check(c):
         c.samples.append({"kind": sc["kind"], "ops": [o[:120] for o in sc["ops"][:12]] + ["..."]})
     distinct = set()
     nviol = 0
-    with concurrent.futures.ThreadPoolExecutor(max_workers=4 if c.tier == "quick" else 6) as ex:
-        futs = {ex.submit(run_scenario, binp, sc): sc for sc in scs}
-        results = {id(futs[f]): f.result() for f in concurrent.futures.as_completed(futs)}
-    for i, sc in enumerate(scs):
-        rc, out, err = results[id(sc)]
-        findings, cases, cnt = evaluate(sc, rc, out, err)
-        bad = [f for f in findings]
-        div, ncmp = model_compare(cases) if lean_ok else ([], 0)
-        if bad or div:
-            if nviol < 3:          # re-run through judge for shrinking and reporting
-                ok_all &= judge(c, binp, sc, f"generated scenario {i} ({sc['kind']})", totals)
-            else:
-                ok_all = False
-            nviol += 1
-            continue
-        for k, v in cnt.items():
-            totals[k] = max(totals.get(k, 0), v) if k == "max_len" else totals.get(k, 0) + v
-        totals["model_comparisons"] = totals.get("model_comparisons", 0) + ncmp
-        for d, _ in cases:
-            distinct.add((d.text, d.level, d.frate))
+    branches = {"level 0, no segments": 0, "level 0, segments": 0, "alignment NULL -> NULL": 0,
+                "alignment with zero words": 0, "alignment with words": 0, "state lists (level 2)": 0,
+                "hypothesis NULL": 0, "hypothesis present": 0,
+                "alignment word without phones": 0, "phone without states (level 2)": 0, "NULL word/name string": 0}
+    workers = 4 if c.tier == "quick" else 6
+    for lo in range(0, len(scs), 120):
+        chunk = scs[lo:lo + 120]
+        with concurrent.futures.ThreadPoolExecutor(max_workers=workers) as ex:
+            futs = {ex.submit(run_scenario, binp, sc): sc for sc in chunk}
+            results = {id(futs[f]): f.result() for f in concurrent.futures.as_completed(futs)}
+        for j, sc in enumerate(chunk):
+            i = lo + j
+            rc, out, err = results[id(sc)]
+            findings, cases, cnt = evaluate(sc, rc, out, err)
+            div, ncmp = model_compare(cases) if lean_ok else ([], 0)
+            if findings or div:
+                if nviol < 3:          # re-run through judge for shrinking and reporting
+                    ok_all &= judge(c, binp, sc, f"generated scenario {i} ({sc['kind']})", totals)
+                else:
+                    ok_all = False
+                nviol += 1
+                continue
+            for k, v in cnt.items():
+                totals[k] = max(totals.get(k, 0), v) if k == "max_len" else totals.get(k, 0) + v
+            totals["model_comparisons"] = totals.get("model_comparisons", 0) + ncmp
+            for d, _ in cases:
+                distinct.add((d.text, d.level, d.frate))
+                branches["hypothesis NULL" if d.hyp is None else "hypothesis present"] += 1
+                if d.level == 0:
+                    branches["level 0, segments" if d.segs else "level 0, no segments"] += 1
+                    branches["NULL word/name string"] += any(w is None for w, *_ in d.segs)
+                elif d.al is None:
+                    branches["alignment NULL -> NULL"] += 1
+                else:
+                    branches["alignment with words" if d.al else "alignment with zero words"] += 1
+                    branches["alignment word without phones"] += any(not w["kids"] for w in d.al)
+                    if d.level > 1 and d.al:
+                        branches["state lists (level 2)"] += 1
+                        branches["phone without states (level 2)"] += any(not p["kids"] for w in d.al for p in w["kids"])
+        if nviol >= 12:
+            break
     c.oblige("oracle: every line returned by the real decoder_result_json (ASan/UBSan, asserts on) is one valid JSON object + "
              "newline, allocation = strlen + 1, and carries the iterators' words/times/probabilities", ok_all)
     c.oblige("correspondence: the implementation's line and allocation equal the model's for every dumped result", ok_all and lean_ok)
@@ -646,8 +696,8 @@ def check(c):
                   "model_comparisons": totals.get("model_comparisons", 0),
                   "line_content": {k: v for k, v in totals.items() if k.startswith("lines_")},
                   "start_offsets": STARTS, "frame_rate_overrides": FRATES,
-                  "model_branches": "segments empty/non-empty, alignment none/empty/non-empty, words with/without phones, "
-                                    "state level on/off, escapes quote/backslash/control/none: all hit (see kinds, levels, spelling classes)"})
+                  "model_branches_hit": branches,
+                  "model_branches_never_hit": [k for k, v in branches.items() if v == 0]})
 
 
 def replay(c, path):
